@@ -1323,6 +1323,67 @@ fn lin_mode(inputs: &[Value], seed: u64, si: usize, sn: usize, out: &mut TraceOu
         if i % sn != si {
             continue;
         }
+        if inp["kind"].as_str() == Some("fault-vs-get") {
+            // One client's SET / DEL of an existing key meets an I/O error in the store and the writer is HELD at the
+            // failing call; another client GETs the key meanwhile and again afterwards.  The failed command may or may
+            // not have taken effect - once, not for one reader and then not any more.
+            let op = inp["op"].as_str().unwrap_or("del").to_string();
+            let nth = inp["nth"].as_u64().unwrap_or(0);
+            pend.set(&json!({"ev": "lin", "phase": "run", "input": inp}));
+            let sc = Scratch::new("net");
+            bcverif::shim::start(sc.path(), false);
+            let kv = open_real_store(sc.path(), inp["max_file"].as_u64().unwrap_or(1_000_000));
+            let h = kv.get_handle();
+            let srv = start_server(h.clone(), 8);
+            let hseq = AtomicU64::new(0);
+            let mut ops: Vec<Value> = vec![];
+            let logical = |b: &[u8]| -> String {
+                if b == b"+OK\r\n" { "OK".into() } else if b == b"$-1\r\n" { "none".into() }
+                else if b.first() == Some(&b':') && b.ends_with(b"\r\n") { String::from_utf8_lossy(&b[1..b.len() - 2]).to_string() }
+                else if b.first() == Some(&b'$') && b.ends_with(b"\r\n") {
+                    match b.windows(2).position(|w| w == b"\r\n") { Some(p) => String::from_utf8_lossy(&b[p + 2..b.len() - 2]).to_string(), None => "?".into() }
+                } else { format!("?{}", String::from_utf8_lossy(b)) }
+            };
+            let mut call = |c: usize, s: &mut TcpStream, opn: &str, req: Vec<u8>, v: &str, ops: &mut Vec<Value>| {
+                let inv = hseq.fetch_add(1, Ordering::SeqCst);
+                let ok = s.write_all(&req).is_ok();
+                let (b, e) = if ok { read_reply_bytes(s, 1, Duration::from_secs(5)) } else { (vec![], "send-failed") };
+                let ret = hseq.fetch_add(1, Ordering::SeqCst);
+                ops.push(json!({"c": c, "op": opn, "k": "key0", "v": v, "inv": inv, "ret": ret, "res": logical(&b), "ending": e}));
+            };
+            if let (Some(mut a), Some(mut b)) = (connect(srv.addr), connect(srv.addr)) {
+                call(0, &mut a, "set", cmd(&[b"SET", b"key0", b"v1"]), "v1", &mut ops);
+                let seen = bcverif::shim::mutating_seen();
+                bcverif::shim::pause_at(seen + nth);
+                bcverif::shim::fail_at(seen + nth, libc::EIO);
+                // client A's failing command runs on its own thread (its reply, if any, comes after the release)
+                let inv_a = hseq.fetch_add(1, Ordering::SeqCst);
+                let req = if op == "del" { cmd(&[b"DEL", b"key0"]) } else { cmd(&[b"SET", b"key0", b"v2"]) };
+                let mut a2 = a.try_clone().unwrap();
+                let ta = std::thread::spawn(move || {
+                    let ok = a2.write_all(&req).is_ok();
+                    if ok { read_reply_bytes(&mut a2, 1, Duration::from_secs(5)) } else { (vec![], "send-failed") }
+                });
+                let paused = bcverif::shim::wait_paused(Duration::from_secs(3));
+                call(1, &mut b, "get", cmd(&[b"GET", b"key0"]), "-", &mut ops);
+                bcverif::shim::release();
+                let (rb, re) = ta.join().unwrap_or((vec![], "panic"));
+                let ret_a = hseq.fetch_add(1, Ordering::SeqCst);
+                ops.push(json!({"c": 0, "op": op, "k": "key0", "v": if op == "del" { "-" } else { "v2" }, "inv": inv_a, "ret": ret_a,
+                                "res": logical(&rb), "ending": re}));
+                for _ in 0..2 {
+                    call(1, &mut b, "get", cmd(&[b"GET", b"key0"]), "-", &mut ops);
+                }
+                let _ = paused;
+            }
+            bcverif::shim::stop();
+            out.emit(&json!({"ev": "lin", "run": i, "window": 0, "clients": 2, "init": [{"k": "key0", "v": "none"}], "ops": ops}));
+            n += 1;
+            srv.stop();
+            drop(kv);
+            pend.clear();
+            continue;
+        }
         let clients = inp["clients"].as_u64().unwrap_or(3) as usize;
         let nops = inp["ops"].as_u64().unwrap_or(8) as usize;
         let nkeys = inp["keys"].as_u64().unwrap_or(2) as usize;
